@@ -128,6 +128,10 @@ func (r *RibEntry) updateNexthopsEnc() {
 					routes = append(routes, route)
 				}
 			}
+			// Inheritance stops at (and includes) the nearest ancestor with a capture route
+			if entry != r && entry.HasCaptureRoute() {
+				break
+			}
 		}
 	}
 
